@@ -508,6 +508,12 @@ struct QExpression {
             Type                 = ExpressionType::NaturalNumber;
 
         } else {
+            if (right_negative) {
+                // 0^-n is a division by zero.
+                Type = ExpressionType::NotANumber;
+                return false;
+            }
+
             Value.Number.Natural = SizeT64{0};
             Type                 = ExpressionType::NaturalNumber;
         }
